@@ -113,6 +113,18 @@ def rule_tables(ctx) -> None:
                "every supplied key (any encoding) is converted to a public key and hashed, in the given order", "", "", A.loc(RKHT, fk.node))
 
 
+def rule_rotkh_value(ctx, rule: str) -> None:
+    """PFR ROTKH = RKTH zero padded to the full register width on every returning path (a shorter hash must not leave stale bytes of
+    a previous, longer value in the register); a hash wider than the register is rejected."""
+    chk = ctx.chk
+    cr = ctx.own(PFR, "BaseConfigArea", "_calc_rotkh")
+    rets = [q for q in A.gpaths(cr.node) if q.end == "return"]
+    vals = {norm(A.inline_locals(cr.node, q.last.value, keep=["rkht", "reg_rotkh"])) for q in rets if q.last.value is not None}
+    ok = vals == {"rkht.rkth().ljust(reg_rotkh.width // 8, b'\\x00')"}
+    guard = any(q.end == "raise" and q.assumes("rkht.hash_algorithm_size <= reg_rotkh.width", False) for q in A.gpaths(cr.node))
+    chk.decide(ok and guard, rule, cr.qual + " value", "ROTKH = RKTH, zero padded to the register width; a hash wider than the register is rejected", f"{sorted(vals)}; width guard {guard}", "", A.loc(PFR, cr.node))
+
+
 def rule_shared_paths(ctx) -> None:
     """Tool paths that share the RKHT implementation must keep reaching it."""
     chk, prog = ctx.chk, ctx.prog
@@ -130,9 +142,7 @@ def rule_shared_paths(ctx) -> None:
     d = [n for n in ast.walk(cb.node) if isinstance(n, ast.Dict)]
     m = {ctx.prog.fold(k, cb.module): norm(v) for k, v in zip(d[0].keys, d[0].values)} if d else {}
     chk.decide(m == {"cert_block_1": "RKHTv1", "cert_block_21": "RKHTv21"}, "C03.shared-paths", cb.qual, "PFR picks the same RKHT classes as the image tools", f"{m}", "", A.loc(PFR, cb.node))
-    cr = ctx.own(PFR, "BaseConfigArea", "_calc_rotkh")
-    r = A.returns_in(cr.node)
-    chk.decide(bool(r) and norm(r[-1].value) == "rkht.rkth().ljust(reg_rotkh.width // 8, b'\\x00')", "C03.shared-paths", cr.qual + " value", "ROTKH = RKTH, zero padded to the register width", norm(r[-1]) if r else "", "", A.loc(PFR, cr.node))
+    rule_rotkh_value(ctx, "C03.shared-paths")
     for cn, want in (("CertBlockV1", "self._rkht.rkth()"), ("CertBlockV21", "self.root_key_record._rkht.rkth()")):
         f = ctx.own(CB, cn, "rkth")
         r = A.returns_in(f.node)
